@@ -33,6 +33,16 @@ PROPS = {
         },
         "assumptions": COMMON_ASSUME + STR_STUBS,
     },
+    "C05": {
+        "groups": [{"name": "json", "tags": "verif", "run": "^VH_C05_"}],
+        "level": "model_checking",
+        "bounds": {
+            "lemmas": "L1 With, L2 Output, L3 Hook, L4 write-set of every derivation/logging call, L5 UpdateContext after With, L7 pooled events (5 pool preludes x 7 consumers of GetCtx): each one step from an arbitrary parent (context nil / '{' with 0,8,16 spare bytes / fields with spare capacity; hooks with spare capacity; level symbolic; sampler, stack flag, Go context present or not). Backing-array identity and write-sets are tracked by the engine's memory model. L6 (every Context method leaves the receiver's bytes untouched) is asserted by the generated C01 Context harnesses.",
+            "trees": "differential: root -> a -> {b, c} for all 6^3 op triples (With+field, Hook, Level, Sample, With+UpdateContext, With+two fields) x 3 emission orders: every node must emit byte-for-byte what the same path emits when built alone from a fresh root",
+            "outside": "goroutine interleavings (reduced to the ownership lemmas and C06), trees deeper than 2 derivations (covered by the one-step lemmas from an arbitrary parent)",
+        },
+        "assumptions": COMMON_ASSUME + ["sync.Pool modelled as a LIFO free list; pool states are reached by real preludes (so they replay natively)", "context.WithValue/Value executed from their real SSA (reflectlite.TypeOf(key).Comparable() stubbed true)"],
+    },
     "C08": {
         "groups": [{"name": "cbor", "tags": "verif", "run": "^VH_C08_", "flags": {"harness-timeout": 280},
                     "quick": {"params": "strlen=2,members=2"},
@@ -123,6 +133,11 @@ NOT_APPLICABLE = [
 ]
 
 MANIFEST_TEXT = {
+    "C05": {
+        "level_text": "Bounded model checking with a memory model that tracks backing-array identity: freshness / write-set lemmas for every derivation operation from an arbitrary parent (so they compose to trees of any shape), pooled-event lemmas from pool states left by other events, and differential trees (built-in-a-tree vs built-alone).",
+        "design_ref": "DESIGN.md §3 C05",
+        "level_note": "One known finding (branching twice from one Context value) is listed in known_findings.json. Concurrency is not explored as schedules; it is reduced to 'no two loggers share a writable region' (these lemmas) plus the ownership protocol of C06.",
+    },
     "C08": {
         "level_text": "Bounded model checking of a differential harness: the real JSON encoder and the real CBOR encoder + bundled decoder are run on the same symbolic value in one program and the solver decides equality (bytes for text, numeric value for numbers) for every value within the bounds; structure is covered by a composition lemma over the encoder interface both builds share.",
         "design_ref": "DESIGN.md §3 C08",
